@@ -251,6 +251,12 @@ def run_visit(case, loop):
     def logging_download(self, *a, **k):
         response = yield from orig_download(self, *a, **k)
         result['download'] = [response.reply.code, text_hex(response.reply.text)]
+        # taken here: when the listing text does not parse, download_listing's TextIOWrapper is
+        # collected without detach() and closes the BytesIO
+        if a and hasattr(a[0], 'getvalue'):
+            result['file'] = a[0].getvalue().hex()
+        elif hasattr(k.get('file'), 'getvalue'):
+            result['file'] = k['file'].getvalue().hex()
         return response
 
     @asyncio.coroutine
@@ -271,7 +277,6 @@ def run_visit(case, loop):
         else:
             yield from session.start(request)
             yield from session.download(file)
-        result['file'] = file.getvalue().hex()
 
     ControlStream.read_reply = logging_read_reply
     Session.download = logging_download
